@@ -17,12 +17,29 @@ Definition ok_cp (cp : N) : bool :=
 
 Definition utf8 (cps : list N) : octs := flat_map encode cps.
 
-(** "multi-line text provided it ends in exactly one line break" (and has no CR) *)
-Definition multi_line_ok (s : octs) : Prop :=
-  existsb is_break s = true -> forallb (fun c => negb (c =? 13)) s = true /\ ends_in_one_lf s = true.
+(** "multi-line text provided it ends in exactly one line break".  Line breaks
+    are LF, CR LF and a lone CR.  A text with a line break is in the domain when
+    it ends in LF, that LF optionally preceded by one CR (a final CR LF pair is
+    ONE line break), and what precedes this final break does not itself end in
+    LF or CR.  So "one" CR LF, "a" LF "b" CR LF, "a" CR "b" LF are in; a text
+    whose last byte is a lone CR, or that has a break but no final one, or that
+    ends in two breaks ("a" LF CR LF, "a" CR CR LF) is out. *)
+Definition head_is_break (r : octs) : bool := match r with c :: _ => is_break c | [] => false end.
 
-Definition wf_scalar (s : octs) : Prop :=
-  (exists cps, forallb ok_cp cps = true /\ s = utf8 cps) /\ multi_line_ok s.
+Definition ends_in_one_break (s : octs) : bool :=
+  match rev s with
+  | 10 :: 13 :: r => negb (head_is_break r)
+  | 10 :: r => negb (head_is_break r)
+  | _ => false
+  end.
+
+Definition multi_line_ok (s : octs) : Prop :=
+  existsb is_break s = true -> ends_in_one_break s = true.
+
+(** the text is the UTF-8 encoding of Unicode scalar values, none a noncharacter *)
+Definition valid_text (s : octs) : Prop := exists cps, forallb ok_cp cps = true /\ s = utf8 cps.
+
+Definition wf_scalar (s : octs) : Prop := valid_text s /\ multi_line_ok s.
 
 Definition wf_ctx (c : sctx) : Prop :=
   match c with CtxBlock li minlit => (minlit <= li)%nat | CtxFlow => True end.
@@ -545,10 +562,47 @@ Proof.
       destruct (is_null_word (utf8 cps)); discriminate F.
 Qed.
 
+(** What the code delivers beyond the property's wording: the condition on line
+    breaks is not needed – every valid text is read back (texts the literal style
+    cannot carry, e.g. with CR, without or with several final breaks, are
+    double-quoted). *)
+Theorem scalar_roundtrip_any_text s ctx :
+  valid_text s -> wf_ctx ctx -> load_scalar ctx (emit_scalar ctx s) = Some (s, []).
+Proof.
+  intros V WC. destruct (existsb is_break s) eqn:B.
+  - (* the proof of [scalar_roundtrip] never uses the line-break condition *)
+    destruct V as (cps & OK & ->).
+    unfold emit_scalar, scalar_bytes, scalar_fmt, style_request, style_request_fixed. rewrite B.
+    destruct (literal_safe (utf8 cps)) eqn:SAFE; [|now apply load_scalar_dq].
+    cbn [compute_fmt]. destruct ctx as [li minlit|]; cbn [ctx_flow ctx_li scalar_bytes_f]; [|now apply load_scalar_dq].
+    now apply lit_roundtrip.
+  - apply scalar_roundtrip; [|exact WC]. split; [exact V|]. intros H. rewrite B in H. discriminate H.
+Qed.
+
+(** texts with CR are always written double-quoted, in block and in flow context *)
+Lemma cr_not_literal_safe s : existsb (fun c => c =? 13) s = true -> literal_safe s = false.
+Proof.
+  intros H. unfold literal_safe. destruct s as [|c s]; [reflexivity|].
+  assert (forallb lit_char_ok (c :: s) = false) as ->; [|now rewrite andb_false_r].
+  apply existsb_exists in H. destruct H as (x & I & X). apply N.eqb_eq in X. subst x.
+  destruct (forallb lit_char_ok (c :: s)) eqn:F; [|reflexivity].
+  rewrite forallb_forall in F. specialize (F 13 I). discriminate F.
+Qed.
+
+Theorem cr_text_is_double_quoted s ctx :
+  existsb (fun c => c =? 13) s = true -> emit_scalar ctx s = dq_write s.
+Proof.
+  intros H. unfold emit_scalar, scalar_bytes, scalar_fmt, style_request, style_request_fixed.
+  assert (existsb is_break s = true) as ->.
+  { apply existsb_exists in H. destruct H as (x & I & X). apply existsb_exists. exists x. split; [exact I|].
+    unfold is_break. rewrite X. apply orb_true_r. }
+  now rewrite (cr_not_literal_safe _ H).
+Qed.
+
 (** the statement is not vacuous: scalars of every style are in the domain *)
 Ltac wf_ex cps :=
   split; [exists cps; split; reflexivity
-         | unfold multi_line_ok; intros H; first [discriminate H | split; reflexivity]].
+         | unfold multi_line_ok; intros H; first [discriminate H | reflexivity]].
 
 Example wf_scalar_examples :
   wf_scalar [] /\ wf_scalar [32; 97; 10] /\ wf_scalar [97; 10; 98; 10] /\ wf_scalar [110; 117; 108; 108] /\
@@ -556,6 +610,17 @@ Example wf_scalar_examples :
 Proof.
   split; [wf_ex (@nil N)|]. split; [wf_ex [32; 97; 10]|]. split; [wf_ex [97; 10; 98; 10]|].
   split; [wf_ex [110; 117; 108; 108]|]. split; [wf_ex [20013; 10]|wf_ex [45; 32; 34; 92; 1]].
+Qed.
+
+(** CR LF endings, mixed endings and lone CRs are in the domain *)
+Example wf_scalar_cr_examples :
+  wf_scalar [111; 110; 101; 13; 10] /\ wf_scalar [97; 13; 10; 98; 13; 10] /\ wf_scalar [97; 10; 98; 13; 10] /\
+  wf_scalar [97; 13; 98; 10] /\ wf_scalar [13; 10] /\
+  ~ multi_line_ok [97; 13] /\ ~ multi_line_ok [97; 10; 13; 10] /\ ~ multi_line_ok [97; 13; 13; 10] /\ ~ multi_line_ok [97; 13; 98].
+Proof.
+  split; [wf_ex [111; 110; 101; 13; 10]|]. split; [wf_ex [97; 13; 10; 98; 13; 10]|]. split; [wf_ex [97; 10; 98; 13; 10]|].
+  split; [wf_ex [97; 13; 98; 10]|]. split; [wf_ex [13; 10]|].
+  repeat split; intros H; specialize (H eq_refl); discriminate H.
 Qed.
 
 (** * the code before the repair loses data inside the domain *)
